@@ -7,9 +7,25 @@
      C13_div_refuted_before_fix : a / b with b = 0 raised, the engine loop swallowed the
                                   exception and NO sample was sent for that timestamp. *)
 From Coq Require Import NArith QArith List.
-From Verif Require Import model.Common model.Formula proofs.FormulaFacts proofs.FormulaHO proofs.FormulaNaN proofs.FormulaSY.
+From Verif Require Import model.Common gen.Formula model.Formula proofs.FormulaFacts proofs.FormulaHO proofs.FormulaNaN proofs.FormulaSY proofs.FormulaSteps.
 Import ListNotations.
 Local Open Scope Q_scope.
+
+(* The step semantics of the model is the `apply` body of each step class as TRANSLATED from
+   _formula_steps.py on this run (gen/Formula.v), instantiated with the model's value operations
+   [vops rnd] (IEEE-style add/sub/mul, division raising on a zero divisor, Python < and ==). *)
+Theorem C13_steps_as_translated : forall rnd fv st,
+  Adder_apply (vops rnd) st = exec_step rnd fv SAdd st /\
+  Subtractor_apply (vops rnd) st = exec_step rnd fv SSub st /\
+  Multiplier_apply (vops rnd) st = exec_step rnd fv SMul st /\
+  Divider_apply (vops rnd) st = exec_step rnd fv SDiv st /\
+  Maximizer_apply (vops rnd) st = exec_step rnd fv SMax st /\
+  Minimizer_apply (vops rnd) st = exec_step rnd fv SMin st /\
+  Consumption_apply (vops rnd) st = exec_step rnd fv SCons st /\
+  Production_apply (vops rnd) st = exec_step rnd fv SProd st /\
+  (forall lo hi, Clipper_apply (vops rnd) lo hi st = exec_step rnd fv (SClip lo hi) st) /\
+  (forall c, ConstantValue_apply (vops rnd) c st = exec_step rnd fv (SConst c) st).
+Proof. exact steps_as_translated. Qed.
 
 (* Every operator, either operand position, every rounding function: NaN in => NaN out. *)
 Theorem C13_nan_left_op : forall rnd o b, happ rnd o NaN b = NaN.
@@ -71,6 +87,7 @@ Example C13_nonvacuous :
   run_round Num (compile_hb false (HPushE (HStart 0%N) (HB Sub) 2%N)) env = Emit (Some (5 - 0)).
 Proof. vm_compute. repeat split. Qed.
 
+Print Assumptions C13_steps_as_translated.
 Print Assumptions C13_nan_left_op.
 Print Assumptions C13_nan_right_op.
 Print Assumptions C13_nan_unary.
